@@ -206,10 +206,13 @@ def snapshot(v):
     return V.canon(v)
 
 
-def run_deepdiff(t1, t2, **kw):
-    """DeepDiff on fresh copies; returns (result or exception, inputs_unmodified)."""
+def run_deepdiff(t1, t2, _nocopy=False, **kw):
+    """DeepDiff on fresh copies (or, with _nocopy, on the objects given: deepcopy can change a
+    set's iteration order, which is observable when two members of one set hash alike - the
+    model must then be fed the very objects that were diffed);
+    returns (result or exception, inputs_unmodified)."""
     from deepdiff import DeepDiff
-    a, b = copy.deepcopy(t1), copy.deepcopy(t2)
+    a, b = (t1, t2) if _nocopy else (copy.deepcopy(t1), copy.deepcopy(t2))
     sa, sb = snapshot(a), snapshot(b)
     try:
         r = DeepDiff(a, b, **kw)
@@ -257,7 +260,8 @@ def in_model_guard(t1, t2):
 def tree_case(t1, t2, zip_, thr, **kw):
     """(coq expr, expected observable, tag) for one DeepDiff tree-view run, or
     None when DeepDiff raised (returned separately)."""
-    r, unmod = run_deepdiff(t1, t2, view="tree", zip_ordered_iterables=zip_, threshold_to_diff_deeper=thr, verbose_level=2, **kw)
+    t1, t2 = copy.deepcopy(t1), copy.deepcopy(t2)     # the model sees exactly the objects that are diffed
+    r, unmod = run_deepdiff(t1, t2, _nocopy=True, view="tree", zip_ordered_iterables=zip_, threshold_to_diff_deeper=thr, verbose_level=2, **kw)
     if isinstance(r, Exception):
         return None, r, unmod
     obs = [tree_obs(r), recorded_opcode_paths(r, t1)]
@@ -312,7 +316,8 @@ def model_text_expr(t1, t2, zip_, thr, verbose, ignore_private=True, skip="no_pa
 
 
 def text_case(t1, t2, zip_, thr, verbose, ignore_private=True, **kw):
-    r, unmod = run_deepdiff(t1, t2, zip_ordered_iterables=zip_, threshold_to_diff_deeper=thr, verbose_level=verbose,
+    t1, t2 = copy.deepcopy(t1), copy.deepcopy(t2)     # the model sees exactly the objects that are diffed
+    r, unmod = run_deepdiff(t1, t2, _nocopy=True, zip_ordered_iterables=zip_, threshold_to_diff_deeper=thr, verbose_level=verbose,
                             ignore_private_variables=ignore_private, **kw)
     if isinstance(r, Exception):
         return None, r, unmod
@@ -342,7 +347,8 @@ def memo_text_expr(t1, t2, zip_, thr, verbose, ignore_private=True, skip="no_pat
 
 def memo_tree_case(t1, t2, zip_, thr, **kw):
     """like tree_case, against run_diff_memo (valid for every pair of the universe, aliased or not)"""
-    r, unmod = run_deepdiff(t1, t2, view="tree", zip_ordered_iterables=zip_, threshold_to_diff_deeper=thr, verbose_level=2, **kw)
+    t1, t2 = copy.deepcopy(t1), copy.deepcopy(t2)     # the model sees exactly the objects that are diffed
+    r, unmod = run_deepdiff(t1, t2, _nocopy=True, view="tree", zip_ordered_iterables=zip_, threshold_to_diff_deeper=thr, verbose_level=2, **kw)
     if isinstance(r, Exception):
         return None, r, unmod
     obs = [tree_obs(r), recorded_opcode_paths(r, t1)]
@@ -351,7 +357,8 @@ def memo_tree_case(t1, t2, zip_, thr, **kw):
 
 
 def memo_text_case(t1, t2, zip_, thr, verbose, ignore_private=True, **kw):
-    r, unmod = run_deepdiff(t1, t2, zip_ordered_iterables=zip_, threshold_to_diff_deeper=thr, verbose_level=verbose,
+    t1, t2 = copy.deepcopy(t1), copy.deepcopy(t2)     # the model sees exactly the objects that are diffed
+    r, unmod = run_deepdiff(t1, t2, _nocopy=True, zip_ordered_iterables=zip_, threshold_to_diff_deeper=thr, verbose_level=verbose,
                             ignore_private_variables=ignore_private, **kw)
     if isinstance(r, Exception):
         return None, r, unmod
